@@ -403,4 +403,108 @@ theorem inv_reach {cfg : Cfg} {s : St} (h : Reach cfg s) : Inv cfg s := by
   | init => exact inv_init cfg
   | step l _ hs ih => exact inv_step ih hs
 
+/-! ### frame facts of the steps (used by the liveness argument) -/
+
+def isStopLabel : Label → Bool
+  | .reqStop | .closeBegin | .queueStop => true
+  | _ => false
+
+/-- number of values handed to the graph so far -/
+def dcount (s : St) : Nat := (flat s.delivered).length
+
+theorem accept_fields (cfg : Cfg) (s : St) (i : Nat) (k : SendKind) (v : Nat) :
+    (accept cfg s i k v).stopReq = s.stopReq ∧ (accept cfg s i k v).closing = s.closing ∧
+    (accept cfg s i k v).cpc = s.cpc ∧ (accept cfg s i k v).flag = s.flag ∧
+    (accept cfg s i k v).delivered = s.delivered ∧ (accept cfg s i k v).deque ≠ [] ∧
+    (accept cfg s i k v).started = s.started ∧ (accept cfg s i k v).accepting = s.accepting ∧
+    (∀ j, j ≠ i → (accept cfg s i k v).pcs j = s.pcs j) ∧
+    (∃ t, (accept cfg s i k v).accepted = s.accepted ++ t) := by
+  unfold accept
+  refine ⟨rfl, rfl, rfl, rfl, rfl, ?_, rfl, rfl, fun j hj => by simp [upd, hj], ⟨_, rfl⟩⟩
+  simp only
+  split <;> simp
+
+theorem refuse_fields (s : St) (i : Nat) (k : SendKind) (v : Nat) (o : Outcome) :
+    (refuse s i k v o).stopReq = s.stopReq ∧ (refuse s i k v o).closing = s.closing ∧
+    (refuse s i k v o).cpc = s.cpc ∧ (refuse s i k v o).flag = s.flag ∧
+    (refuse s i k v o).delivered = s.delivered ∧ (refuse s i k v o).deque = s.deque ∧
+    (refuse s i k v o).started = s.started ∧ (refuse s i k v o).accepting = s.accepting ∧
+    (∀ j, j ≠ i → (refuse s i k v o).pcs j = s.pcs j) ∧ (refuse s i k v o).accepted = s.accepted := by
+  unfold refuse
+  exact ⟨rfl, rfl, rfl, rfl, rfl, rfl, rfl, rfl, fun j hj => by simp [upd, hj], rfl⟩
+
+/-- split a step hypothesis into its branches, each with `s'` substituted -/
+macro "step_cases " hs:ident : tactic => `(tactic| (
+  simp only [step] at $hs:ident
+  repeat' (split at $hs:ident)
+  all_goals (first | (simp only [Option.some.injEq] at $hs:ident; subst $hs:ident) | (simp at $hs:ident; done) | skip)))
+
+theorem step_keeps_stop {cfg : Cfg} {s s' : St} {l : Label} (hs : step cfg s l = some s') (hl : isStopLabel l = false) :
+    s'.stopReq = s.stopReq ∧ s'.closing = s.closing ∧ (s.started = true → s'.started = true) ∧
+    (s.started = true → s'.accepting = s.accepting) := by
+  cases l <;> simp [isStopLabel] at hl <;> step_cases hs <;>
+    simp [refuse, accept, markFlag] <;> (try split) <;> simp_all
+
+theorem step_dcount {cfg : Cfg} {s s' : St} {l : Label} (hs : step cfg s l = some s') :
+    dcount s ≤ dcount s' ∧ (l = .pop → s.deque ≠ [] → dcount s < dcount s') := by
+  cases l <;> step_cases hs <;>
+    simp [refuse, accept, markFlag, dcount, flat] <;> (try split) <;> simp_all <;> omega
+
+theorem step_accepted_mono {cfg : Cfg} {s s' : St} {l : Label} (hs : step cfg s l = some s') :
+    ∃ t, s'.accepted = s.accepted ++ t := by
+  cases l <;> step_cases hs <;>
+    simp [refuse, accept, markFlag] <;> (try split) <;> (try exact ⟨[], by simp⟩) <;> (try exact ⟨_, rfl⟩)
+
+/-- the consumer's program counter moves only by its own steps, which need the matching counter -/
+theorem step_cpc {cfg : Cfg} {s s' : St} {l : Label} (hs : step cfg s l = some s') :
+    ((∀ dt, l ≠ .beginCycle dt) → l ≠ .pop → l ≠ .rearm → s'.cpc = s.cpc) ∧
+    (l = .pop → s.cpc = .reset) ∧ (l = .rearm → ∃ b, s.cpc = .popped b) ∧
+    ((∃ dt, l = .beginCycle dt) → s.cpc = .idle) := by
+  cases l <;> step_cases hs <;>
+    simp [refuse, accept, markFlag] <;> (try split) <;> simp_all
+
+/-- the flag is cleared only by `beginCycle` -/
+theorem step_flag {cfg : Cfg} {s s' : St} {l : Label} (hs : step cfg s l = some s')
+    (hl : ∀ dt, l ≠ .beginCycle dt) (hf : s.flag = true) : s'.flag = true := by
+  cases l <;> step_cases hs <;>
+    (try simp [refuse, accept, markFlag]) <;> (try split) <;> (try simp_all) <;> (try assumption)
+
+/-- the queue shrinks only by `pop` (and by the stop, and by `start`, which a started source cannot repeat) -/
+theorem step_deque_ne {cfg : Cfg} {s s' : St} {l : Label} (hs : step cfg s l = some s') (hl : isStopLabel l = false)
+    (hp : l ≠ .pop) (hst : s.started = true) (hd : s.deque ≠ []) : s'.deque ≠ [] := by
+  cases l <;> simp [isStopLabel] at hl <;> step_cases hs <;>
+    simp [refuse, accept, markFlag] <;> (try split) <;> simp_all
+
+/-- a producer between admission and mark stays there until its own `mark` -/
+theorem step_pcs_admitted {cfg : Cfg} {s s' : St} {l : Label} (hs : step cfg s l = some s')
+    (i : Nat) (k : SendKind) (v : Nat) (w : Bool) (hl : l ≠ .mark i) (hp : s.pcs i = .admitted k v w) :
+    s'.pcs i = .admitted k v w := by
+  cases l <;> step_cases hs <;>
+    (try simp [refuse, accept, markFlag, upd]) <;> (try split) <;> (try simp_all) <;>
+    (try (intro h; subst h; simp_all)) <;> (try assumption) <;> (try split) <;> (try simp_all)
+
+theorem step_beginCycle {cfg : Cfg} {s s' : St} {dt : Nat} (hs : step cfg s (.beginCycle dt) = some s')
+    (hf : s.flag = true) : s'.cpc = .reset ∧ s'.deque = s.deque := by
+  step_cases hs <;> simp_all
+
+theorem step_rearm {cfg : Cfg} {s s' : St} (hs : step cfg s .rearm = some s') :
+    s'.cpc = .idle ∧ s'.deque = s.deque ∧
+    (s.stopReq = false → (s.cpc = .popped true ∨ s.flag = true) → s'.flag = true) := by
+  step_cases hs <;> simp [markFlag] <;> (try split) <;> simp_all
+
+theorem step_mark {cfg : Cfg} {s s' : St} {i : Nat} {k : SendKind} {v : Nat} (hs : step cfg s (.mark i) = some s')
+    (hp : s.pcs i = .admitted k v true) (hst : s.stopReq = false) :
+    s'.flag = true ∧ s'.cpc = s.cpc ∧ s'.deque = s.deque := by
+  step_cases hs <;> simp [markFlag] <;> simp_all
+
+/-- a started source that is not closing is accepting -/
+theorem running_accepting {cfg : Cfg} {s : St} (h : Reach cfg s) :
+    s.started = true → s.closing = false → s.accepting = true := by
+  induction h with
+  | init => simp
+  | step l _ hs ih =>
+    revert ih
+    cases l <;> step_cases hs <;>
+      (try simp [refuse, accept, markFlag]) <;> (try split) <;> (try simp_all)
+
 end HgVerif.PushQueue
